@@ -280,6 +280,32 @@ class _Canon(ast.NodeTransformer):
         return node
 
 
+def _canon_ifexp_assign(tree: ast.AST) -> int:
+    """`x = a if c else b`  ->  `if c: x = a  else: x = b`  for a plain local / attribute-chain target: ONE spelling of a
+    conditional assignment - the statement form, whose test is an edge of the graph and whose two values are two
+    definitions (rules then see the same thing whichever way it was written)."""
+    import copy as _copy
+
+    done = 0
+    for holder in list(ast.walk(tree)):
+        for field in ("body", "orelse", "finalbody"):
+            b = getattr(holder, field, None)
+            if not (isinstance(b, list) and b and isinstance(b[0], ast.stmt)):
+                continue
+            for i, st in enumerate(b):
+                if type(st) is ast.Assign and len(st.targets) == 1 and isinstance(st.value, ast.IfExp) and (
+                        isinstance(st.targets[0], ast.Name) or (isinstance(st.targets[0], ast.Attribute) and _Canon._chain(st.targets[0]))):
+                    ie = st.value
+                    t2 = _copy.deepcopy(st.targets[0])
+                    a1 = ast.copy_location(ast.Assign(targets=[st.targets[0]], value=ie.body, type_comment=None), ie.body)
+                    a2 = ast.copy_location(ast.Assign(targets=[t2], value=ie.orelse, type_comment=None), ie.orelse)
+                    new = ast.copy_location(ast.If(test=ie.test, body=[a1], orelse=[a2]), st)
+                    ast.fix_missing_locations(new)
+                    b[i] = new
+                    done += 1
+    return done
+
+
 _NEG = {ast.In: ast.NotIn, ast.NotIn: ast.In, ast.Is: ast.IsNot, ast.IsNot: ast.Is, ast.Eq: ast.NotEq, ast.NotEq: ast.Eq}
 
 
@@ -445,6 +471,8 @@ class Program:
             self.inline_stats.update(unroll_package({mn: (m.tree, m.is_pkg) for mn, m in self.modules.items() if not mn.startswith(PKG + ".testing") and mn != PKG + ".testing"}))
         for m in self.modules.values():
             m.tree = _Canon().visit(m.tree)
+            if os.environ.get("VERIF_SA_NO_IFEXP") != "1" and not (m.name == PKG + ".testing" or m.name.startswith(PKG + ".testing.")):
+                self.inline_stats["ifexp_assigns"] = self.inline_stats.get("ifexp_assigns", 0) + _canon_ifexp_assign(m.tree)
             if os.environ.get("VERIF_SA_NO_ACCLOOP") != "1" and not (m.name == PKG + ".testing" or m.name.startswith(PKG + ".testing.")):
                 for fn in [n for n in ast.walk(m.tree) if isinstance(n, (ast.FunctionDef, ast.AsyncFunctionDef))]:
                     self.inline_stats["acc_loops"] = self.inline_stats.get("acc_loops", 0) + _canon_acc_loops(fn)
